@@ -34,7 +34,7 @@ OPS = ["get", "multiget", "getnext", "multigetnext", "set", "multiset", "bulkget
 CAND_BULK = [C.O("1.9.0"), C.O("2.1.1"), C.O("2.2.1"), C.O("9.1")]
 
 
-def make_harness(kind, op, maxk, traced=False):
+def make_harness(kind, op, maxk, traced=False, kfix=0):
     v1 = kind == "v1"
     CAND = CAND_BULK if op == "bulkget" else globals()["CAND"]
 
@@ -54,7 +54,7 @@ def make_harness(kind, op, maxk, traced=False):
         problem = None
         with (_Null() if traced else window()):
             single = op in ("get", "getnext", "set")
-            k = 1 if single else choose(k_sym, 1, maxk)
+            k = 1 if single else choose(k_sym, 1, max(maxk, kfix))
             idxs = [choose(i_sym[j], 0, len(CAND) - 1) for j in range(k)]
             oids = [CAND[i] for i in idxs]
             tamper = choose(tamper_sym, 0, 2) if op != "bulkget" else (0, 2, 3)[choose(tamper_sym, 0, 2)]
@@ -281,6 +281,13 @@ def jobs(tier):
                 continue
             out.append(Job(f"{kind}-{op}", make_harness(kind, op, maxk), args(op), timeout=500 if quick else 1500,
                            mode="E/concolic-window", functions=funcs, sample_every=23))
+    # three OIDs in one get-bulk: 1 non-repeater + 2 repeaters, 2 + 1, 0 + 3 (request lists from 3 candidates)
+    for n in (0, 1, 2):
+        a = args("bulkget", n, 2)
+        a[8], a[9], a[10] = Arg("i0", 0, 2), Arg("i1", 1, 3), Arg("i2", 1, 3)
+        a[11] = Arg("k", 3, 3)
+        out.append(Job(f"v2c-bulkget-3oids-n{n}-m2", make_harness("v2c", "bulkget", maxk, kfix=3), a, timeout=500 if quick else 1500,
+                       mode="E/concolic-window", functions=funcs, sample_every=23))
     out.append(Job("traced-v2c-multiget", make_harness("v2c", "multiget", 1, traced=True),
                    [Arg(f"p{i}", 0, 1 if i in (1, 4) else 0) for i in range(8)] + [Arg("i0", 1, 3), Arg("i1", 0, 0), Arg("i2", 0, 0),
                     Arg("k", 1, 1), Arg("tamper", 0, 1), Arg("n", 0, 0), Arg("m", 0, 0), Arg("val", 0, 0)],
